@@ -116,8 +116,12 @@ class C09(Prop):
             nm = 1 if rng.random() < 0.6 else rng.choice([2, 3, 3, 11])
             y = [rng.randint(-8, 16) / 4 for _ in range(n)]
             preds = [[v if rng.random() < 0.2 else rng.randint(-8, 16) / 4 for v in y] for _ in range(nm)]
+            offset = rng.random() < 0.08
+            if offset:  # a huge common offset with a small spread: the variance must be computed stably
+                y = [1e9 + rng.randint(-3, 3) for _ in range(n)]
+                preds = [[0.0] * n for _ in range(nm)]
             w = None if rng.random() < 0.4 else [rng.choice([1.0, 2.0, 3.0, 0.5, 0.25]) for _ in range(n)]
-            c = {"stream": "bias", "y": y, "preds": preds, "w": w, "f": rng.choice(FUNCS), "level": rng.choice([0.5, 0.25, 0.75, 0.125]),
+            c = {"stream": "offset" if offset else "bias", "y": y, "preds": preds, "w": w, "f": "mean" if offset else rng.choice(FUNCS), "level": rng.choice([0.5, 0.25, 0.75, 0.125]),
                  "n_bins": rng.randint(2, 12), "method": rng.choice(tc.ALL_METHODS[:2] * 2 + tc.NUMPY_METHODS)}
             r = rng.random()
             if r < 0.15:
@@ -206,6 +210,11 @@ class C09(Prop):
                 if not feq(a["mean"], float(mean)):
                     return f"model {m} row {k}: bias_mean {a['mean']!r} vs {float(mean)!r}"
                 se = math.sqrt(float(s2))
+                if case["stream"] == "offset":
+                    # (b - mean)^2 of values ~1e9 with spread ~3: the two-pass formula is good to ~1e-7 relative
+                    if not feq(a["stderr"], se, 1e-5):
+                        return f"model {m} row {k}: bias_stderr {a['stderr']!r} vs {se!r} (large common offset)"
+                    continue
                 if not (feq(a["stderr"], se) or abs(a["stderr"] - se) < 1e-12):
                     return f"model {m} row {k}: bias_stderr {a['stderr']!r} vs {se!r}"
                 pm = pvalue(float(mean), se, b["count"])
@@ -219,6 +228,8 @@ class C09(Prop):
     def oracle(self, case, io):
         if "err" in io:
             return f"valid call rejected: {io['err']}: {io.get('msg')}"
+        if case["stream"] == "offset":
+            return None  # compared with the exact model at the tolerance the stable formula achieves
         n = len(case["y"])
         nm = len(case["preds"])
         rows = io["rows"]
